@@ -646,6 +646,19 @@ class OpGen:
         source switch decides what the known finding K1 lets through)."""
         return any(ft.fleet is not None and len(ft.fleet.fits) > 1 for ft in w.ss_fits())
 
+    def _booster_present(self, w):
+        """Some item's type carries a fleet-boost effect in one of the universes (it may start running when a source
+        is set, before the ships of fleet mates load - class K1)."""
+        if not hasattr(self, '_buff_type_ids'):
+            self._buff_type_ids = {tid for uu in w.unis for tid, t in uu.ch.types.items()
+                                   if any(isinstance(e, WarfareBuffEffect) for e in t.effects.values())}
+        return any(it._type_id in self._buff_type_ids for it in w.all_items())
+
+    def _switch_ok(self, w):
+        """A source switch reloads every item fit by fit: with a booster in a shared fleet the outcome depends on the
+        load order (K1); boosts that reach only the booster's own ship are fine."""
+        return not (self.avoid_k1 and self._fleet_shared(w) and (self._booster_present(w) or self._buff_running(w)))
+
     def _untarget(self, w, doomed):
         """Ops clearing every target that points into `doomed` (set of python ids)."""
         pre = []
@@ -757,7 +770,7 @@ class OpGen:
             'charge': 4 if mods else 0,
             'target': 10 if projectors or items else 0,
             'level': self.p.get('level_weight', 3),
-            'source': self.p.get('switch_weight', 2) if (ship_ok or not self._fleet_shared(w)) and self.p.get('switch', True) else 0,
+            'source': self.p.get('switch_weight', 2) if self._switch_ok(w) and self.p.get('switch', True) else 0,
             'fleet': self.p.get('fleet_weight', 4) if any(uu.fleet for uu in w.unis) else 0,
             'profile': 1,
             'read': 6,
